@@ -462,7 +462,17 @@ class Endpoint:
              "last": c._message_last_time, "buf": len(c._msg_buffer), "wasActive": bool(c._connection_was_active),
              "sock": c._socket_writer is not None}
         if journal:
-            p.update(project_journal(self.j, s))
+            jp = getattr(self, "jpath", None)
+            if jp:
+                # durable view: what a second connection to the journal file sees (committed state only)
+                from asyncfix.journaler import Journaler as J
+                j2 = J(jp)
+                try:
+                    p.update(project_journal(j2, s))
+                finally:
+                    del j2          # Journaler.__del__ closes the connection
+            else:
+                p.update(project_journal(self.j, s))
         return p
 
 
